@@ -242,3 +242,79 @@ int v_printf_capture (char *out, size_t cap, const char *fmt, ...)
   fclose (tmp);
   return r;
 }
+
+/* ---------------- write monitor (C15 api sweep): libmpir's writable static segment and an arena of shared inputs are mapped
+   read-only around a call; a write traps (SIGSEGV), is counted with its address and pc, is let through by single-stepping the
+   instruction with the page open, and the page is protected again in the SIGTRAP handler.  Needs LD_BIND_NOW (no lazy PLT writes). */
+#include <signal.h>
+#include <link.h>
+#include <ucontext.h>
+#include <sys/mman.h>
+static struct { uintptr_t lo, hi; } mon_prot[8]; static int mon_nprot;
+static char *mon_arena_p; static size_t mon_arena_len;
+static volatile int mon_on_;
+static volatile long mon_traps_; static uintptr_t mon_addr[16], mon_rip[16]; static int mon_kind[16];
+static uintptr_t mon_step_page;
+static int mon_phdr (struct dl_phdr_info *info, size_t sz, void *d)
+{
+  int i;
+  if (!info->dlpi_name || !strstr (info->dlpi_name, "libmpir.so")) return 0;
+  for (i = 0; i < info->dlpi_phnum && mon_nprot < 8; i++)
+    if (info->dlpi_phdr[i].p_type == PT_LOAD && (info->dlpi_phdr[i].p_flags & PF_W))
+      {
+        uintptr_t a = info->dlpi_addr + info->dlpi_phdr[i].p_vaddr, b = a + info->dlpi_phdr[i].p_memsz;
+        mon_prot[mon_nprot].lo = a & ~(uintptr_t) 4095; mon_prot[mon_nprot].hi = (b + 4095) & ~(uintptr_t) 4095; mon_nprot++;
+      }
+  return 0;
+}
+static void mon_segv (int sig, siginfo_t *si, void *uc_)
+{
+  ucontext_t *uc = uc_; uintptr_t a = (uintptr_t) si->si_addr; int i, inside = 0;
+  for (i = 0; i < mon_nprot; i++) if (a >= mon_prot[i].lo && a < mon_prot[i].hi) inside = 1;
+  if (mon_arena_p && a >= (uintptr_t) mon_arena_p && a < (uintptr_t) mon_arena_p + mon_arena_len) inside = 2;
+  if (!mon_on_ || !inside) { signal (SIGSEGV, SIG_DFL); return; }
+  if (mon_traps_ < 16) { mon_addr[mon_traps_] = a; mon_rip[mon_traps_] = uc->uc_mcontext.gregs[REG_RIP]; mon_kind[mon_traps_] = inside; }
+  mon_traps_++;
+  mon_step_page = a & ~(uintptr_t) 4095;
+  mprotect ((void *) mon_step_page, 4096, PROT_READ | PROT_WRITE);
+  uc->uc_mcontext.gregs[REG_EFL] |= 0x100;
+}
+static void mon_trap (int sig, siginfo_t *si, void *uc_)
+{
+  ucontext_t *uc = uc_;
+  if (mon_step_page) { mprotect ((void *) mon_step_page, 4096, PROT_READ); mon_step_page = 0; }
+  uc->uc_mcontext.gregs[REG_EFL] &= ~0x100;
+}
+int v_mon_init (size_t arena_bytes)
+{
+  struct sigaction sa;
+  if (mon_nprot == 0) dl_iterate_phdr (mon_phdr, 0);
+  if (!mon_arena_p)
+    {
+      mon_arena_len = (arena_bytes + 4095) & ~(size_t) 4095;
+      mon_arena_p = mmap (0, mon_arena_len, PROT_READ | PROT_WRITE, MAP_PRIVATE | MAP_ANONYMOUS, -1, 0);
+      if (mon_arena_p == MAP_FAILED) { mon_arena_p = 0; return -1; }
+    }
+  memset (&sa, 0, sizeof sa); sa.sa_flags = SA_SIGINFO | SA_NODEFER; sigemptyset (&sa.sa_mask);
+  sa.sa_sigaction = mon_segv; sigaction (SIGSEGV, &sa, 0);
+  sa.sa_sigaction = mon_trap; sigaction (SIGTRAP, &sa, 0);
+  return mon_nprot;
+}
+void *v_mon_arena (void) { return mon_arena_p; }
+size_t v_mon_arena_len (void) { return mon_arena_len; }
+void v_mon_set (int on)
+{
+  int i;
+  for (i = 0; i < mon_nprot; i++) mprotect ((void *) mon_prot[i].lo, mon_prot[i].hi - mon_prot[i].lo, on ? PROT_READ : PROT_READ | PROT_WRITE);
+  if (mon_arena_p) mprotect (mon_arena_p, mon_arena_len, on ? PROT_READ : PROT_READ | PROT_WRITE);
+  mon_on_ = on;
+}
+long v_mon_traps (void) { return mon_traps_; }
+void v_mon_reset (void) { mon_traps_ = 0; }
+uintptr_t v_mon_trap_addr (int i) { return mon_addr[i]; }
+uintptr_t v_mon_trap_rip (int i) { return mon_rip[i]; }
+int v_mon_trap_kind (int i) { return mon_kind[i]; }
+uintptr_t v_mon_seg_lo (int i) { return i < mon_nprot ? mon_prot[i].lo : 0; }
+uintptr_t v_mon_seg_hi (int i) { return i < mon_nprot ? mon_prot[i].hi : 0; }
+/* one call under the monitor: up to 6 word-sized arguments (all the table needs), result returned as a word; double-taking
+   functions are called from Python directly between v_mon_set(1) / v_mon_set(0) */
